@@ -64,7 +64,7 @@ def check(ctx: Ctx) -> str:
         ctx.check(len(ps) == 3 + nargs and ps[1] == "context" and ps[2] == "operator", f"{hook}:signature", f"sandbox:SandboxedEnvironment.{hook}", "hook signature", f"{hook}{tuple(ps)} does not match the emitted call (context, op, operands)", hk.loc())
         tab = "binop_table" if nargs == 2 else "unop_table"
         args = ", ".join(ps[3:])
-        ctx.check(ast.unparse(astq.returns(hk.node)[0].value) == f"self.{tab}[operator]({args})", f"{hook}:default", f"sandbox:SandboxedEnvironment.{hook}", "default hook", f"the default {hook} must apply self.{tab}[operator] to the operands in order", hk.loc())
+        ctx.check(ast.unparse(astq.returns(hk.nnode)[0].value) == f"self.{tab}[operator]({args})", f"{hook}:default", f"sandbox:SandboxedEnvironment.{hook}", "default hook", f"the default {hook} must apply self.{tab}[operator] to the operands in order", hk.loc())
 
     ctx.rule("R2", "folding: BinExpr/UnaryExpr.as_const refuse (raise Impossible) when sandboxed and the operator is intercepted, before evaluating; no operator node class with an interceptable operator overrides as_const")
     for base, table in (("BinExpr", "intercepted_binops"), ("UnaryExpr", "intercepted_unops")):
@@ -72,10 +72,13 @@ def check(ctx: Ctx) -> str:
         rs = [r for r in astq.raises(fi.node) if astq.raise_type(r).endswith("Impossible") and not astq.ancestors_handlers(r)]
         ok = False
         for r in rs:
-            gs = [(ast.unparse(g), pol) for g, pol in guards_of(r)]
-            if gs == [(f"eval_ctx.environment.sandboxed and self.operator in eval_ctx.environment.{table}", True)]:
+            gs = sorted(astq.guard_atoms(fi.node, r))
+            if gs == sorted([("eval_ctx.environment.sandboxed", True), (f"self.operator in eval_ctx.environment.{table}", True)]):
                 ok = True
-                comp = [c for c in astq.calls(fi.node) if astq.callee(c) == "f"]
+                # the evaluation lies on a path where the refusal did not fire (its early exit dominates the call)
+                fold = [a for a in ast.walk(fi.node) if isinstance(a, ast.Assign) and "_to_func[self.operator]" in ast.unparse(a.value) and isinstance(a.targets[0], ast.Name)]
+                fvar = fold[0].targets[0].id if len(fold) == 1 else "f"  # type: ignore[attr-defined]
+                comp = [c for c in astq.calls(fi.node) if astq.callee(c) == fvar]
                 ctx.check(bool(comp) and r.lineno < comp[0].lineno, f"{base}:order", f"nodes:{base}.as_const", "refusal precedes evaluation", "the interception refusal must come before the operator is applied", fi.loc(r))
         ctx.check(ok, f"{base}:refusal", f"nodes:{base}.as_const", "interception refusal", f"{base}.as_const no longer refuses to fold under `sandboxed and self.operator in {table}`: intercepted operators on constants are computed at compile time and never reach the hook", fi.loc())
     inter = sb_bin | sb_un
